@@ -202,7 +202,7 @@ func init() {
 	})
 	register(&PropSpec{
 		ID: "C05",
-		Explanation: "Decided: R-NONFATAL - the handler of error messages stops the read loop only where the step-fatal or server-fatal flag was found set or the payload did not decode; R-FREEFIRST - where a table of the server session decides whether a work start is taken (a method both looks a key up and inserts it), no delete on it comes after a call that can write a terminal message, and at least one method of the session deletes from it (a deciding table that is never pruned refuses the ID of a finished run for good). Decided: R-SIGNONFATAL (also here) - nothing reported on behalf of a signal can be step-fatal, computed flags included: a signal cannot end the Execute of its step. Decided: R-DECODERX same-turn clause - a request whose reply is matched by position is written under the mutex held at the read. Decided: R-DECODERX - every Decode on the connection's decoder is exclusive; R-CODEC - CBOR modes as wide as the schemas; R-PAIR - a result that has arrived is never overwritten. R-LOCKSET - for every struct with a mutex (ATP client, ATP server session, callable step) the guarded fields are inferred (accessed under " +
+		Explanation: "Decided (round 17, also under C06): R-DONEGATE - no insertion into the pending table replaces an entry that is still there, with or without a result (the collector looks its entry up and deletes it by run ID: a replaced slot loses one result or hands it to the other call). Decided: R-NONFATAL - the handler of error messages stops the read loop only where the step-fatal or server-fatal flag was found set or the payload did not decode; R-FREEFIRST - where a table of the server session decides whether a work start is taken (a method both looks a key up and inserts it), no delete on it comes after a call that can write a terminal message, and at least one method of the session deletes from it (a deciding table that is never pruned refuses the ID of a finished run for good). Decided: R-SIGNONFATAL (also here) - nothing reported on behalf of a signal can be step-fatal, computed flags included: a signal cannot end the Execute of its step. Decided: R-DECODERX same-turn clause - a request whose reply is matched by position is written under the mutex held at the read. Decided: R-DECODERX - every Decode on the connection's decoder is exclusive; R-CODEC - CBOR modes as wide as the schemas; R-PAIR - a result that has arrived is never overwritten. R-LOCKSET - for every struct with a mutex (ATP client, ATP server session, callable step) the guarded fields are inferred (accessed under " +
 			"the mutex and mutable after construction; shared cbor encoders, the client's pending table, signal table and running flag are required to be guarded) and every " +
 			"access outside construction holds the mutex on all paths (must-lockset dataflow, helpers inherit the locks of all call sites, a goroutine started inside a " +
 			"critical section and joined before the unlock counts as inside). This is the structural part of 'never corrupted by interleaved writes / delivered to a different " +
@@ -211,6 +211,7 @@ func init() {
 			"the 60 s send time-out arm of sendRuntimeMessage (transport stall) is outside the premise"},
 		Rules: []func(*Ctx){
 			func(c *Ctx) { c.ruleFreeFirst("R-FREEFIRST") },
+			func(c *Ctx) { c.ruleDoneGate("R-DONEGATE") },
 			func(c *Ctx) { c.ruleNonFatal("R-NONFATAL") },
 			func(c *Ctx) { c.ruleSignalNonFatal("R-SIGNONFATAL") },
 			func(c *Ctx) { c.ruleCodec("R-CODEC"); c.R.Floor("R-CODEC", 3) },
